@@ -199,7 +199,14 @@ class FnCtx:
 
     def site(self, bb):
         from .cfg import span_str
-        return span_str(self.cfg.term(bb).get("sp"))
+        sp = self.cfg.term(bb).get("sp")
+        if not sp or (sp.get("l") in (None, 0, 1) and not sp.get("m")):
+            # goto/return terminators carry the function's dummy span: use the block's last statement instead
+            st = self.cfg.block(bb)["stmts"]
+            for s in reversed(st):
+                if s.get("sp") and s["sp"].get("l", 0) > 1:
+                    return span_str(s["sp"])
+        return span_str(sp)
 
     def edge_facts(self, edge):
         from .conds import switch_edge_facts
